@@ -210,9 +210,17 @@ class AsyncMap:
         return self
 
     async def __anext__(self):
-        return await self.map_value(
-            await type(self.source_stream).__anext__(self.source_stream)
-        )
+        # Only the SOURCE ends the stream: pull the event first ...
+        event = await type(self.source_stream).__anext__(self.source_stream)
+        # ... a StopAsyncIteration escaping from the mapping of that event
+        # (e.g. raised by a resolver) is an error of this event, it must not
+        # be taken for the end of the stream (cf. PEP 479).
+        try:
+            return await self.map_value(event)
+        except StopAsyncIteration as err:
+            raise RuntimeError(
+                "StopAsyncIteration raised while processing a stream event"
+            ) from err
 
 
 def _isawaitable_fast(
